@@ -26,7 +26,7 @@ def build_all(b, with_san=True):
         flags = [opt, '-g'] + (['-fsanitize=alignment', '-fno-omit-frame-pointer'] if san else [])
         wobjs = core.build_world(os.path.join(b, 'w_' + name), g, cc=cc, cflags=flags, world_srcs=WSRC)
         o2 = os.path.join(b, 'w_' + name, 'wrap_bo2.o')
-        core.par([[cc, '-std=gnu99', opt, '-I' + os.path.join(core.REPO, 'include'), '-I' + os.path.join(core.REPO, 'src'), '-DW_BO=w_bo2', '-DW_FORCE_BIG', '-Wno-builtin-macro-redefined', '-c',
+        core.par([[cc, '-std=gnu99', opt, *core.lib_flags(), '-DW_BO=w_bo2', '-DW_FORCE_BIG', '-Wno-builtin-macro-redefined', '-c',
                    os.path.join(core.ROOT, 'world', 'wrap_bo.c'), '-o', o2]])
         lf = ['-fsanitize=alignment'] if san else []
         linker = 'clang' if san else 'gcc'
